@@ -122,6 +122,19 @@ func (e *Engine) verifyFuncGroup(fn *ssa.Function, spec *FuncSpec, prop, group s
 			st.assume(x.evalClause(st, env, cl, spec))
 		}
 	}
+	for _, rname := range spec.Refines {
+		is := e.refinedSpec(fn, rname)
+		if is == nil {
+			return fmt.Errorf("%s: refines %s: no such iface contract", x.qname, rname)
+		}
+		if len(spec.Requires) > 0 {
+			return fmt.Errorf("%s: a method that refines an interface contract must not have its own requires clauses", x.qname)
+		}
+		renv := x.refineEnv(st, fn, is, args, nil)
+		for _, cl := range is.Requires {
+			st.assume(x.evalClause(st, renv, cl, is))
+		}
+	}
 	x.oldHeap = copyHeap(st.heap)
 	env.old = x.oldHeap
 	for _, h := range spec.Hints {
@@ -288,6 +301,24 @@ func (x *Exec) checkPost(st *State, ret *ssa.Return, rs []Val) {
 		x.oblige(st, fmt.Sprintf("%s/post#%d", x.qname, c.Ord), "post", g, c.Text, fmt.Sprintf("%s:%d", c.File, c.Line), c.Tags)
 		x.curClause = nil
 	}
+	// behavioural refinement of interface contracts
+	if x.primary {
+		for _, rname := range x.spec.Refines {
+			is := x.e.refinedSpec(x.top, rname)
+			if is == nil {
+				continue
+			}
+			var entryArgs []Val
+			for _, p := range x.top.Params {
+				entryArgs = append(entryArgs, x.entryVars[p.Name()])
+			}
+			renv := x.refineEnv(st, x.top, is, entryArgs, rs)
+			for _, c := range is.Ensures {
+				g := x.evalClause(st, renv, c, is)
+				x.oblige(st, fmt.Sprintf("%s/refine@%s#%d", x.qname, rname, c.Ord), "refine", g, "refines "+rname+": "+c.Text, fmt.Sprintf("%s:%d", c.File, c.Line), nil)
+			}
+		}
+	}
 }
 
 // ---------------------------------------------------------------------------------
@@ -357,6 +388,16 @@ func (x *Exec) evalAssignTarget(env *Env, c *Clause, spec *FuncSpec) (locs []ass
 			return []assignLoc{{kind: "global", text: c.Text}}
 		}
 		if strings.HasPrefix(t.Sel, "$") {
+			if m, dt, ref := env.ghostModel(b, t.Sel); m != nil {
+				// assigning a model-defined ghost field means assigning the fields its definition reads
+				elem := dt.Underlying().(*types.Pointer).Elem()
+				sty := elem.Underlying().(*types.Struct)
+				var locs []assignLoc
+				for _, fname := range modelFields(m.E) {
+					locs = append(locs, x.fieldLocs(env, elem, sty, ref, fname, c.Text+" (model field ."+fname+")")...)
+				}
+				return locs
+			}
 			h := ghostHandle(b.V)
 			if h == nil {
 				env.fail("ghost field of a value without identity")
@@ -1133,4 +1174,116 @@ func (x *Exec) applyHint(st *State, env *Env, h *Clause) {
 	x.e.hintTerms[ht] = true
 	st.assume(ht)
 	x.e.lemmasUsed[x.e.qualName(fn)] = true
+}
+
+// modelFields: the fields of `self` that an abstraction function reads directly (self.f)
+func modelFields(ex Expr) []string {
+	seen := map[string]bool{}
+	var out []string
+	var rec func(e Expr)
+	rec = func(e Expr) {
+		switch v := e.(type) {
+		case ESel:
+			if id, ok := v.X.(EIdent); ok && id.Name == "self" && !strings.HasPrefix(v.Sel, "$") {
+				if !seen[v.Sel] {
+					seen[v.Sel] = true
+					out = append(out, v.Sel)
+				}
+				return
+			}
+			rec(v.X)
+		case ECall:
+			rec(v.Fun)
+			for _, a := range v.Args {
+				rec(a)
+			}
+		case EIndex:
+			rec(v.X)
+			rec(v.I)
+		case ESlice:
+			rec(v.X)
+			if v.Lo != nil {
+				rec(v.Lo)
+			}
+			if v.Hi != nil {
+				rec(v.Hi)
+			}
+		case EUnary:
+			rec(v.X)
+		case EBinary:
+			rec(v.X)
+			rec(v.Y)
+		case ECond:
+			rec(v.C)
+			rec(v.A)
+			rec(v.B)
+		case EQuant:
+			rec(v.Body)
+		}
+	}
+	rec(ex)
+	return out
+}
+
+// refinedSpec resolves "Iface.Method" (optionally package-qualified) to an iface contract.
+func (e *Engine) refinedSpec(fn *ssa.Function, name string) *FuncSpec {
+	pp := funcPkgPath(fn)
+	if ps := e.specs[pp]; ps != nil {
+		if s := ps.Ifaces[name]; s != nil {
+			return s
+		}
+	}
+	var paths []string
+	for p := range e.specs {
+		paths = append(paths, p)
+	}
+	sort.Strings(paths)
+	for _, p := range paths {
+		ps := e.specs[p]
+		if s := ps.Ifaces[name]; s != nil {
+			return s
+		}
+		// "pkg.Iface.Method"
+		if i := strings.Index(name, "."); i >= 0 && e.shortPkg(p) == name[:i] {
+			if s := ps.Ifaces[name[i+1:]]; s != nil {
+				return s
+			}
+		}
+	}
+	return nil
+}
+
+// refineEnv binds the interface contract's names (self, params, results) to a method's values.
+func (x *Exec) refineEnv(st *State, fn *ssa.Function, is *FuncSpec, args []Val, results []Val) *Env {
+	vars := map[string]TV{}
+	sig := fn.Signature
+	if len(fn.Params) > 0 {
+		vars["self"] = TV{V: args[0], T: fn.Params[0].Type()}
+	}
+	for i := 1; i < len(fn.Params); i++ {
+		n := fn.Params[i].Name()
+		if i-1 < len(is.Params) {
+			n = is.Params[i-1]
+		}
+		vars[n] = TV{V: args[i], T: fn.Params[i].Type()}
+	}
+	if results != nil {
+		names := resultNames(is, sig)
+		for i, n := range names {
+			vars[n] = TV{V: results[i], T: sig.Results().At(i).Type()}
+			vars[fmt.Sprintf("ret%d", i)] = vars[n]
+		}
+		if len(results) == 1 {
+			vars["ret"] = vars[names[0]]
+		}
+	}
+	old := x.oldHeap
+	if old == nil {
+		old = st.heap
+	}
+	ov := map[string]TV{}
+	for k, v := range vars {
+		ov[k] = v
+	}
+	return &Env{x: x, st: st, heap: st.heap, old: old, vars: vars, ovars: ov, pkg: x.specPkg(is)}
 }
